@@ -70,8 +70,15 @@ def main(argv):
                 if f.startswith(prop + "-") and f.endswith(".json"):
                     os.remove(os.path.join(rp, f))
         print("%-16s %-4s %-14s %s" % rows[-1], flush=True)
-    with open(os.path.join(SEEDED, "RESULTS.json"), "w") as f:
-        json.dump([{"id": r[0], "property": r[1], "verdict": r[2], "signatures": r[3]} for r in rows], f, indent=1)
+    rp = os.path.join(SEEDED, "RESULTS.json")
+    try:
+        old = {r["id"]: r for r in json.load(open(rp))}
+    except Exception:
+        old = {}
+    for r in rows:
+        old[r[0]] = {"id": r[0], "property": r[1], "verdict": r[2], "signatures": r[3]}
+    with open(rp, "w") as f:
+        json.dump([old[k] for k in sorted(old)], f, indent=1)
     return 0 if all(r[2].startswith("CAUGHT") for r in rows) else 1
 
 
